@@ -4,8 +4,8 @@ conversion (crypt.go: decryptPackage, createIV, standardConvertPasswdToKey /
 convertPasswdToKey's encoder).  Core Lean only.
 
 `Impl`: `agileLoop` / `decryptPackageSegs` — the chunks `decryptPackage` takes from the
-        EncryptedPackage stream, as (segment index used for the IV, lo, hi) = `input[lo:hi]`,
-        with the out-of-range slice as an explicit panic outcome; `utf16le` — the encoder.
+        EncryptedPackage stream, as (segment index used for the IV, lo, hi) = `input[lo:hi]`;
+        `utf16le` — the encoder.
 `Spec`: `specSegs` — [MS-OFFCRYPTO] 2.3.4.15: `input[8:]` cut into 4096-byte segments, segment
         `i` decrypted with IV `H(salt ‖ le32 i)`; distinct passwords ↦ distinct encoder outputs.
 -/
@@ -17,34 +17,26 @@ open XlModel.Facts.C13
 
 abbrev Seg := Nat × Nat × Nat   -- (IV index, lo, hi)
 
-/-- the `for end < len(input)` loop of `decryptPackage` on a stream of length `L`; `none` = the
-slice `input[start+offset : end]` has `start+offset > end` (runtime panic) -/
-def agileLoop (L : Nat) : Nat → Nat → Nat → Option (List Seg)
-  | 0, _, _ => some []
-  | f + 1, e, i =>
-    if e < L then
-      let start := e
+/-- the segment loop of `decryptPackage` over `data := input[offset:]` of length `N`
+(`for i, start := 0, 0; start < len(data); i, start = i+1, start+4096`); positions are those in
+`input` -/
+def agileLoop (N : Nat) : Nat → Nat → Nat → List Seg
+  | 0, _, _ => []
+  | f + 1, start, i =>
+    if start < N then
       let e1 := start + packageEncryptionChunkSize
-      let e2 := if e1 > L then L else e1
-      let lo := start + packageOffset
-      let hi := if e2 + packageOffset < L then e2 + packageOffset else e2
-      if lo > hi then none
-      else match agileLoop L f e2 (i + 1) with
-        | some r => some ((i, lo, hi) :: r)
-        | none => none
-    else some []
+      let e := if e1 > N then N else e1
+      (i, start + packageOffset, e + packageOffset) :: agileLoop N f (start + packageEncryptionChunkSize) (i + 1)
+    else []
 
 inductive AOut where
   | ok (segs : List Seg)
   | err
-  | panic
 deriving Repr, DecidableEq
 
 def decryptPackageSegs (L : Nat) : AOut :=
   if L < packageOffset then .err
-  else match agileLoop L (L + 1) 0 0 with
-    | some s => .ok s
-    | none => .panic
+  else .ok (agileLoop (L - packageOffset) (L - packageOffset + 1) 0 0)
 
 /-- what the format prescribes for `N = L - 8` bytes of cipher text -/
 def specSegs (N : Nat) : List Seg :=
